@@ -7,6 +7,7 @@ import (
 	"go/types"
 	"os"
 	"path/filepath"
+	"regexp"
 	"sort"
 	"strings"
 	"time"
@@ -266,6 +267,7 @@ func (o *obs) info(fn, construct string, pos token.Pos, detail string, a ...inte
 type KnownFinding struct {
 	Property string `json:"property"`
 	Key      string `json:"key"`
+	KeyRegex string `json:"key_regex,omitempty"` // optional: the same construct after the enclosing method was renamed / split
 	Status   string `json:"status"` // "known" | "fixed"
 	Commit   string `json:"commit,omitempty"`
 	What     string `json:"what"`
@@ -287,6 +289,19 @@ func loadKnown(verif string) []KnownFinding {
 		broken("known_findings.json: %v", err)
 	}
 	return k.Findings
+}
+
+// matches: the obligation key is the listed one (or matches the listed pattern for the same construct).
+func (k KnownFinding) matches(key string) bool {
+	if k.Key == key {
+		return true
+	}
+	if k.KeyRegex != "" {
+		if re, err := regexp.Compile(k.KeyRegex); err == nil && re.MatchString(key) {
+			return true
+		}
+	}
+	return false
 }
 
 // ---------------------------------------------------------------------------------------------
